@@ -14,7 +14,7 @@ alloc site which is decided), undefined behaviour inside the two unsafe blocks r
 from ..mir import is_user_span, op_place
 from .panic_common import run_loops, run_panic
 
-TECHNIQUE = "static analysis: reachability of panic-capable MIR constructs over the monomorphic call graph from the untrusted-input entry points, with dataflow discharges (constant/masked index, induction variable, dominating guard, infallible unwrap), dominator check for the success return and consumer check for I/O results"
+TECHNIQUE = "static analysis: reachability of panic-capable MIR constructs over the monomorphic call graph from the untrusted-input entry points, with dataflow discharges (constant/masked index, induction variable, dominating guard, infallible unwrap), dominator check for the success return and consumer check for I/O results; structural termination arguments for every reachable natural loop (finite iterator, stepped counter tested on exit, stepped bounds-checked index, input-consuming read)"
 TRUSTED = ["rustc nightly MIR and trait resolution", "binrw 0.14 generated code and std internals (not inspected; their panicking preconditions are modelled by the callee list in pv/panic.py)", "spec/exceptions.json (named infeasible sites with reasons)"]
 
 ENTRIES = [
